@@ -343,5 +343,21 @@ fn main() {
             check_case(l, *cfg, &map, &setts, depth, &|| format!("cfg={cfg:?}\nspec={}\n--- .osu ---\n{}", spec.describe(), spec.text()));
         });
     }
+    // converts under other slider velocities / tick rates (a slider becomes several objects of the target mode; how many
+    // depends on velocity and tick rate): the protocol must hold for whatever the conversion yields
+    for cfg in MODE_CFGS.iter().filter(|c| c.src != c.dst) {
+        for preset in [gen::DiffPreset::D2, gen::DiffPreset::D3, gen::DiffPreset::D1] {
+            let alpha = Alphabet::product(&[Kind::Circle, Kind::Slider1, Kind::Slider2, Kind::SliderLong], &[150], &[PosK::Far], &[0], &[0]);
+            let n_max = 3u32;
+            let setts = [Setting::nm()];
+            let total = alpha.count_upto(n_max);
+            let name = format!("converts-velocity/{preset:?}/{}to{}/N<={n_max}", cfg.src, cfg.dst);
+            ctx.universe(&name, total, |idx, l| {
+                let spec = MapSpec { diff: preset, ..MapSpec::new(cfg.src, alpha.seq(idx, n_max)) };
+                let map = spec.decode();
+                check_case(l, *cfg, &map, &setts, 8, &|| format!("cfg={cfg:?}\nspec={}\n--- .osu ---\n{}", spec.describe(), spec.text()));
+            });
+        }
+    }
     ctx.finish();
 }
